@@ -1,6 +1,123 @@
-// Complex kinds (C13, C14): elt = "crat" (Complex<Rat>) or "cplx" (Complex<f64>).
+// Complex kinds (C13): elt = "crat" (Complex<Rat>) or "cplx" (Complex<f64>).
+// Every operator impl of src/complex/mod.rs has its own kind; the `cx.pair.*` kinds run the binary
+// form and the compound-assignment form on the same operands and emit both results (the property
+// demands bit identity between the two); `cx.cmp` / `cx.cmp3` observe equality and the ordering.
+// Only the public API of ohsl is used (operators, `new`, `conj`, `abs_sqr`, `abs`, Zero/One,
+// PartialEq/PartialOrd, Clone, the public fields `real` / `imag`).
 #![allow(unused_imports, dead_code)]
-use crate::io::{Args, Out};
-pub fn run_cx(_elt: &str, kind: &str, _a: &mut Args, _out: &mut Out) {
-    panic!("harness: unknown kind {}", kind);
+use std::cmp::Ordering;
+use ohsl::{Cmplx, Complex};
+use ohsl::traits::{Number, Signed, Zero, One};
+use crate::io::{Args, Out, Elt};
+use crate::rat::Rat;
+
+fn pz<T: Elt>(a: &mut Args) -> Complex<T> {
+    let tok = a.word();
+    let (re, im) = tok.split_once(':').unwrap_or_else(|| panic!("harness: bad complex token {}", tok));
+    Complex::new(T::parse(re), T::parse(im))
+}
+fn ez<T: Elt>(z: &Complex<T>, out: &mut Out) { z.real.emit(out); z.imag.emit(out); }
+
+fn ord_code(o: Option<Ordering>) -> i128 {
+    match o { Some(Ordering::Less) => 0, Some(Ordering::Equal) => 1, Some(Ordering::Greater) => 2, None => 3 }
+}
+
+// a clone taken before an operator call must still describe the operand afterwards (all operators take
+// their operands by value, so this can only fail if `clone` itself is wrong)
+fn same_tokens<T: Elt>(x: &Complex<T>, y: &Complex<T>) -> bool {
+    let (mut o1, mut o2) = (Out::new(), Out::new());
+    ez(x, &mut o1); ez(y, &mut o2);
+    o1.toks == o2.toks
+}
+
+fn binary<T: Elt>(op: &str, z: Complex<T>, w: Complex<T>) -> Complex<T> {
+    match op { "add" => z + w, "sub" => z - w, "mul" => z * w, "div" => z / w,
+               _ => panic!("harness: unknown complex binary op {}", op) }
+}
+fn assign<T: Elt>(op: &str, z: Complex<T>, w: Complex<T>) -> Complex<T> {
+    let mut t = z;
+    match op { "add" => { t += w; } "sub" => { t -= w; } "mul" => { t *= w; } "div" => { t /= w; }
+               _ => panic!("harness: unknown complex assign op {}", op) }
+    t
+}
+fn binary_r<T: Elt>(op: &str, z: Complex<T>, r: T) -> Complex<T> {
+    match op { "add" => z + r, "sub" => z - r, "mul" => z * r, "div" => z / r,
+               _ => panic!("harness: unknown complex/real binary op {}", op) }
+}
+fn assign_r<T: Elt>(op: &str, z: Complex<T>, r: T) -> Complex<T> {
+    let mut t = z;
+    match op { "add" => { t += r; } "sub" => { t -= r; } "mul" => { t *= r; } "div" => { t /= r; }
+               _ => panic!("harness: unknown complex/real assign op {}", op) }
+    t
+}
+
+fn cmp_items<T: Elt>(z: &Complex<T>, w: &Complex<T>, out: &mut Out) {
+    out.boolean(z == w); out.boolean(z != w);
+    out.int(ord_code(z.partial_cmp(w)));
+    out.boolean(z < w); out.boolean(z <= w); out.boolean(z > w); out.boolean(z >= w);
+}
+
+fn run_generic<T: Elt>(kind: &str, a: &mut Args, out: &mut Out) -> bool {
+    let k = kind.strip_prefix("cx.").unwrap_or(kind);
+    if let Some(op) = k.strip_prefix("pair.r.") {          // cx.pair.r.<op> z r : z op r , then z op= r
+        let z = pz::<T>(a); let r = a.s::<T>();
+        ez(&binary_r(op, z.clone(), r), out); ez(&assign_r(op, z, r), out);
+        return true;
+    }
+    if let Some(op) = k.strip_prefix("pair.") {            // cx.pair.<op> z w : z op w , then z op= w
+        let z = pz::<T>(a); let w = pz::<T>(a);
+        ez(&binary(op, z.clone(), w.clone()), out); ez(&assign(op, z, w), out);
+        return true;
+    }
+    if let Some(op) = k.strip_prefix("bin.r.") { let z = pz::<T>(a); let r = a.s::<T>(); ez(&binary_r(op, z, r), out); return true; }
+    if let Some(op) = k.strip_prefix("asg.r.") { let z = pz::<T>(a); let r = a.s::<T>(); ez(&assign_r(op, z, r), out); return true; }
+    if let Some(op) = k.strip_prefix("bin.") { let z = pz::<T>(a); let w = pz::<T>(a); ez(&binary(op, z, w), out); return true; }
+    if let Some(op) = k.strip_prefix("asg.") { let z = pz::<T>(a); let w = pz::<T>(a); ez(&assign(op, z, w), out); return true; }
+    match k {
+        "neg" => { let z = pz::<T>(a); ez(&(-z), out); }
+        "conj" => { let z = pz::<T>(a); let c = z.conj(); ez(&c, out); }
+        "abs_sqr" => { let z = pz::<T>(a); z.abs_sqr().emit(out); }
+        "clone" => { let z = pz::<T>(a); let c = z.clone();
+            if !same_tokens(&z, &c) { panic!("harness: clone differs from its original"); }
+            ez(&c, out); }
+        "zero" => { ez(&<Complex<T> as Zero>::zero(), out); }
+        "one" => { ez(&<Complex<T> as One>::one(), out); }
+        // identities: z+0, 0+z, z-0, z*1, 1*z, z/1, z+0(real), z-0(real), z*1(real), z/1(real)
+        "ident" => { let z = pz::<T>(a);
+            let zero = <Complex<T> as Zero>::zero; let one = <Complex<T> as One>::one;
+            ez(&(z.clone() + zero()), out); ez(&(zero() + z.clone()), out); ez(&(z.clone() - zero()), out);
+            ez(&(z.clone() * one()), out); ez(&(one() * z.clone()), out); ez(&(z.clone() / one()), out);
+            ez(&(z.clone() + T::zero()), out); ez(&(z.clone() - T::zero()), out);
+            ez(&(z.clone() * T::one()), out); ez(&(z.clone() / T::one()), out); }
+        // equality and ordering of one pair: eq ne partial_cmp lt le gt ge  (and lt, le once more: the model has two renderings)
+        "cmp" => { let z = pz::<T>(a); let w = pz::<T>(a);
+            cmp_items(&z, &w, out); out.boolean(z < w); out.boolean(z <= w); }
+        // a triple: for every ordered pair (i, j), i, j in 0..3: lt, eq   (trichotomy / transitivity / irreflexivity)
+        "cmp3" => { let zs = [pz::<T>(a), pz::<T>(a), pz::<T>(a)];
+            for i in 0..3 { for j in 0..3 { out.boolean(zs[i] < zs[j]); out.boolean(zs[i] == zs[j]); } } }
+        _ => return false,
+    }
+    true
+}
+
+fn run_f64_only(kind: &str, a: &mut Args, out: &mut Out) -> bool {
+    match kind {
+        "cx.abs" => { let z = pz::<f64>(a); out.f(Cmplx::abs(&z)); }                        // inherent: sqrt(abs_sqr)
+        "cx.sabs" => { let z = pz::<f64>(a); let s: Cmplx = <Cmplx as Signed>::abs(&z); ez(&s, out); } // Signed::abs = (|z|, 0)
+        "cx.rmul" => { let r = a.f64(); let z = pz::<f64>(a); ez(&(r * z), out); }             // f64 * Complex<f64>
+        "cx.pair.rmul" => { let r = a.f64(); let z = pz::<f64>(a);                            // r * z, z * r, z *= r
+            ez(&(r * z), out); ez(&(z * r), out); let mut t = z; t *= r; ez(&t, out); }
+        "cx.copy" => { let z = pz::<f64>(a); let c = z; let d = c; ez(&c, out); ez(&d, out); }  // Copy for Complex<f64>
+        _ => return false,
+    }
+    true
+}
+
+pub fn run_cx(elt: &str, kind: &str, a: &mut Args, out: &mut Out) {
+    let done = match elt {
+        "crat" => run_generic::<Rat>(kind, a, out),
+        "cplx" => run_f64_only(kind, a, out) || run_generic::<f64>(kind, a, out),
+        _ => panic!("harness: unknown element type {} for {}", elt, kind),
+    };
+    if !done { panic!("harness: unknown kind {}", kind); }
 }
